@@ -1,7 +1,7 @@
 (** Dispatch2.v — entry points of the models added after Dispatch.v (DER/token keys, hashes, key blinding, ...).
     [dispatch2] is what the OCaml runner calls; unknown names fall through to [dispatch]. *)
 From Coq Require Import Strings.String.
-From PatVerif Require Import Base.GoSem Model.Dispatch Model.TokenKey Model.Codecs Model.Derive Model.Ed25519 Model.TokenVerify.
+From PatVerif Require Import Base.GoSem Model.Dispatch Model.TokenKey Model.Codecs Model.Derive Model.Ed25519 Model.TokenVerify Model.Ecdsa.
 Open Scope N_scope.
 
 Definition out_z (z : Z) : list (list byte) :=
@@ -70,8 +70,32 @@ Definition dispatch_verify (name : list byte) (a : list (list byte)) : option (l
     Some [if verify prf t then st_ok else st_none; auth_input t]
   else None.
 
+Definition curve_bits (c : N) : N := match c with 1 => 224 | 2 => 256 | 3 => 384 | _ => 521 end.
+Fixpoint script_of (l : list (list byte)) : list rd_ev :=
+  match l with
+  | [] => []
+  | (x :: b) :: t => (if byte_eqb x x44 then Data b else Fault) :: script_of t     (* 'D' ++ bytes | anything else = fault *)
+  | [] :: t => Fault :: script_of t
+  end.
+Definition out_entropy (r : res (list byte)) : list (list byte) :=
+  match r with Ok e => [st_ok; e] | Err => [st_none; []] | Panic => [st_panic; []] end.
+Definition dispatch_ecdsa (name : list byte) (a : list (list byte)) : option (list (list byte)) :=
+  if is name "ecdsa_parse" then
+    let n := curve_order (narg a 0) in
+    Some (match fork_accepts n (arg a 1), std_accepts n (arg a 1) with
+          | Some (r, s), Some _ => [st_ok; be_min r; be_min s]
+          | None, None => [st_none]
+          | _, _ => [st_panic] end)          (* cannot happen: theorem parse_equiv *)
+  else if is name "hash_to_int" then Some [be_min (hash_to_int (arg a 1) (curve_bits (narg a 0)))]
+  else if is name "ecdsa_keygen_entropy" then
+    Some (out_entropy (generate_key_entropy (N.to_nat (curve_bits (narg a 0))) (script_of (skipn 1 a))))
+  else if is name "ecdsa_sign_entropy" then
+    Some (out_entropy (sign_entropy false (script_of a)) ++ out_entropy (sign_entropy true (script_of a)))
+  else None.
+
 Definition dispatch2 (name : list byte) (a : list (list byte)) : list (list byte) :=
   match dispatch_tokenkey name a with Some r => r | None =>
   match dispatch_derive name a with Some r => r | None =>
   match dispatch_ed name a with Some r => r | None =>
-  match dispatch_verify name a with Some r => r | None => dispatch name a end end end end.
+  match dispatch_verify name a with Some r => r | None =>
+  match dispatch_ecdsa name a with Some r => r | None => dispatch name a end end end end end.
